@@ -61,7 +61,7 @@ var commonAssumptions = []string{
 }
 
 func treeSpec(id, h, expl string, streamH string) *PropSpec {
-	p := &PropSpec{ID: id, Level: "model_checking", Explanation: expl, Assumptions: commonAssumptions, QuickSec: 170, ThoroughSec: 1500}
+	p := &PropSpec{ID: id, Level: "model_checking", Explanation: expl, Assumptions: commonAssumptions, QuickSec: 170, ThoroughSec: 1200}
 	p.Jobs = append(p.Jobs, fJobs(h, []int{1, 2, 3}, []int{4}, 0, "")...)
 	p.Jobs = append(p.Jobs, tlJobs(h)...)
 	p.Jobs = append(p.Jobs, tlEOLJobs(h)...)
@@ -75,7 +75,7 @@ func propSpecs() map[string]*PropSpec {
 	m := map[string]*PropSpec{}
 	add := func(p *PropSpec) { m[p.ID] = p }
 
-	c01 := &PropSpec{ID: "C01", Level: "model_checking", Assumptions: commonAssumptions, QuickSec: 170, ThoroughSec: 1500,
+	c01 := &PropSpec{ID: "C01", Level: "model_checking", Assumptions: commonAssumptions, QuickSec: 170, ThoroughSec: 1200,
 		Explanation: "bounded symbolic execution of Parse and of NewBlockParser/NextBlock on symbolic inputs; tiling, offset, line, Source, aliasing and no-write clauses asserted on every path"}
 	for _, e := range []int64{0, 1} {
 		name := "in-memory Parse"
@@ -113,7 +113,7 @@ func propSpecs() map[string]*PropSpec {
 	add(treeSpec("C03", "H_C03", "bounded symbolic execution of Parse; leaf cover counted per source byte; no-dup and no-loss clauses asserted on every path", ""))
 	add(treeSpec("C05", "H_C05", "bounded symbolic execution of Parse; node grammar table and accessor ranges asserted for every node on every path", "H_C05s"))
 	add(treeSpec("C13", "H_C13", "bounded symbolic execution of Parse; construct shape table evaluated on Source[span] (symbolic bytes) for every node on every path", ""))
-	c15 := &PropSpec{ID: "C15", Level: "model_checking", Assumptions: append([]string{"a 'line' is n bytes without LF/CR followed by one of: nothing, LF, CR, CRLF; leading indentation already stripped (first byte not space/tab), as the recognisers' callers guarantee"}, commonAssumptions...), QuickSec: 170, ThoroughSec: 1500,
+	c15 := &PropSpec{ID: "C15", Level: "model_checking", Assumptions: append([]string{"a 'line' is n bytes without LF/CR followed by one of: nothing, LF, CR, CRLF; leading indentation already stripped (first byte not space/tab), as the recognisers' callers guarantee"}, commonAssumptions...), QuickSec: 170, ThoroughSec: 1200,
 		Explanation: "unit-level bounded symbolic execution of the unexported recognisers and classifiers against reference recognisers transcribed from the CommonMark 0.30 text, plus the same decisions observed through Parse; NormalizeURI and IsEmailAddress against RFC 3986 character classes / the spec's regular expression"}
 	j := func(h string, a int64, bound, tier string) {
 		c15.Jobs = append(c15.Jobs, JobSpec{Pkg: pkgCM, Harness: h, Params: []int64{a, 0}, Bound: bound, Tier: tier})
@@ -151,7 +151,7 @@ func propSpecs() map[string]*PropSpec {
 	add(c15)
 
 	// ---- C04
-	c04 := &PropSpec{ID: "C04", Level: "model_checking", Assumptions: append([]string{"non-termination is approximated by a per-path budget of 20,000,000 SSA instructions (the longest path on the unchanged tree uses < 200,000); a budget hit is confirmed natively with a 20 s watchdog before it is reported", "stack exhaustion and out-of-memory are outside the claim; nesting depth is bounded by the templates (<= 8)"}, commonAssumptions...), QuickSec: 170, ThoroughSec: 1500,
+	c04 := &PropSpec{ID: "C04", Level: "model_checking", Assumptions: append([]string{"non-termination is approximated by a per-path budget of 20,000,000 SSA instructions (the longest path on the unchanged tree uses < 200,000); a budget hit is confirmed natively with a 20 s watchdog before it is reported", "stack exhaustion and out-of-memory are outside the claim; nesting depth is bounded by the templates (<= 8)"}, commonAssumptions...), QuickSec: 170, ThoroughSec: 1200,
 		Explanation: "bounded symbolic execution of Parse, NextBlock (one-shot and 1-byte readers) + Rewrite, Render under 18 configurations (3 soft-break modes x IgnoreRaw x {nil, GFM, reject-all}), Walk, and format.Format; any feasible path that panics or exhausts the step budget is a violation, error values are asserted"}
 	for n := int64(1); n <= 3; n++ {
 		c04.Jobs = append(c04.Jobs, JobSpec{Pkg: pkgCM, Harness: "H_C04", Params: []int64{0, n}, Bound: fmt.Sprintf("F(%d)", n), Tier: "quick", Panic: "C04.no-panic", Budget: "C04.terminates", Cert: 16})
@@ -180,7 +180,7 @@ func propSpecs() map[string]*PropSpec {
 	add(c04)
 
 	// ---- C07
-	c07 := &PropSpec{ID: "C07", Level: "model_checking", Assumptions: commonAssumptions, QuickSec: 170, ThoroughSec: 1500,
+	c07 := &PropSpec{ID: "C07", Level: "model_checking", Assumptions: commonAssumptions, QuickSec: 170, ThoroughSec: 1200,
 		Explanation: "bounded symbolic execution of Parse + Render with IgnoreRaw=true (3 soft-break modes) and IgnoreRaw=false on raw-free documents; a strict tokenizer over the symbolic output bytes asserts tag/attribute vocabulary, nesting, quoting and escaping, and the tag/attribute-name skeleton is compared with one computed from the tree alone"}
 	for n := int64(1); n <= 3; n++ {
 		c07.Jobs = append(c07.Jobs, JobSpec{Pkg: pkgCM, Harness: "H_C07", Params: []int64{n, 0}, Bound: fmt.Sprintf("F(%d)", n), Tier: "quick", Cert: 16})
@@ -200,7 +200,7 @@ func propSpecs() map[string]*PropSpec {
 	add(c07)
 
 	// ---- C10
-	c10 := &PropSpec{ID: "C10", Level: "model_checking", Assumptions: append([]string{"conventions pinned by the reference renderer (DESIGN.md §C10): escape sets, attribute order, <br>+LF, verbatim character references, first word of the info string (strings.Fields), close tags offered to FilterTag with their slash"}, commonAssumptions...), QuickSec: 170, ThoroughSec: 1500,
+	c10 := &PropSpec{ID: "C10", Level: "model_checking", Assumptions: append([]string{"conventions pinned by the reference renderer (DESIGN.md §C10): escape sets, attribute order, <br>+LF, verbatim character references, first word of the info string (strings.Fields), close tags offered to FilterTag with their slash"}, commonAssumptions...), QuickSec: 170, ThoroughSec: 1200,
 		Explanation: "bounded symbolic execution of Parse + Render in 6 configurations per filter (3 soft-break modes x IgnoreRaw) x 6 filter predicates, compared byte for byte (one solver query per comparison) with an independent reference renderer that reads the tree through the public API; determinism, purity (the tree and all pre-existing state are frozen during rendering) and the block-join rule are asserted"}
 	fnames := []string{"nil", "GFM", "reject-all", "reject-none", "{xmp}", "{b,script}"}
 	for f := int64(0); f < 6; f++ {
@@ -234,7 +234,7 @@ func propSpecs() map[string]*PropSpec {
 	add(c10)
 
 	// ---- C17
-	c17 := &PropSpec{ID: "C17", Level: "model_checking", Assumptions: append([]string{"HTML tokenization per the WHATWG data, tag-open, end-tag-open, tag-name, attribute, markup-declaration-open, comment and bogus-comment states; RCDATA/RAWTEXT states are never entered because every raw-text element is rejected by the predicates considered"}, commonAssumptions...), QuickSec: 170, ThoroughSec: 1500,
+	c17 := &PropSpec{ID: "C17", Level: "model_checking", Assumptions: append([]string{"HTML tokenization per the WHATWG data, tag-open, end-tag-open, tag-name, attribute, markup-declaration-open, comment and bogus-comment states; RCDATA/RAWTEXT states are never entered because every raw-text element is rejected by the predicates considered"}, commonAssumptions...), QuickSec: 170, ThoroughSec: 1200,
 		Explanation: "bounded symbolic execution of Parse + Render with and without a predicate on HTML templates with symbolic holes; the filtered output (symbolic bytes) is aligned with the unfiltered one (only '<' -> '&lt;') and tokenised by a WHATWG-state tokenizer that must never emit a start tag the predicate rejects"}
 	pnames := []string{"GFM", "reject-all", "reject-none", "{xmp}", "{x,xmp,script}"}
 	for i := int64(0); i < 9; i++ {
@@ -267,7 +267,7 @@ func propSpecs() map[string]*PropSpec {
 		p.Jobs = append(p.Jobs, JobSpec{Pkg: pkgCM, Harness: h, Params: []int64{a, b}, Bound: bound, Tier: tier})
 	}
 	// ---- C08
-	c08 := &PropSpec{ID: "C08", Level: "model_checking", Assumptions: append([]string{"reader model: the j-th Read returns min(c_j, remaining, len(p)) bytes with c_j a solver variable in 0..remaining, at most two consecutive empty reads, optionally the terminal condition (io.EOF or the injected error) together with the last data", "lines >= 8 KiB (buffer growth, block-too-large error) are outside the claim"}, commonAssumptions...), QuickSec: 170, ThoroughSec: 1500,
+	c08 := &PropSpec{ID: "C08", Level: "model_checking", Assumptions: append([]string{"reader model: the j-th Read returns min(c_j, remaining, len(p)) bytes with c_j a solver variable in 0..remaining, at most two consecutive empty reads, optionally the terminal condition (io.EOF or the injected error) together with the last data", "lines >= 8 KiB (buffer growth, block-too-large error) are outside the claim"}, commonAssumptions...), QuickSec: 170, ThoroughSec: 1200,
 		Explanation: "bounded symbolic execution of NewBlockParser/NextBlock/Extract/Rewrite under a symbolic read schedule (chunk sizes, empty reads, EOF-with-data) and under a symbolic fault point k, compared with in-memory Parse of the same bytes (of the first k bytes) by deep tree/position/reference-map equality; terminal error persistence asserted"}
 	for n := int64(1); n <= 3; n++ {
 		cm(c08, "H_C08", n, 0, fmt.Sprintf("A(%d, 13-byte-class alphabet), all read schedules", n), "quick")
@@ -295,7 +295,7 @@ func propSpecs() map[string]*PropSpec {
 	add(c08)
 
 	// ---- C16
-	c16 := &PropSpec{ID: "C16", Level: "model_checking", Assumptions: commonAssumptions, QuickSec: 170, ThoroughSec: 1500,
+	c16 := &PropSpec{ID: "C16", Level: "model_checking", Assumptions: commonAssumptions, QuickSec: 170, ThoroughSec: 1200,
 		Explanation: "bounded symbolic execution: stream-parse + Rewrite the document, then parse every root block's Source alone with the same reference matcher; exactly one block, identical tree dump, StartOffset 0, StartLine 1"}
 	for n := int64(1); n <= 3; n++ {
 		cm(c16, "H_C16", 0, n, fmt.Sprintf("F(%d)", n), "quick")
@@ -318,7 +318,7 @@ func propSpecs() map[string]*PropSpec {
 	add(c16)
 
 	// ---- C14
-	c14 := &PropSpec{ID: "C14", Level: "model_checking", Assumptions: append([]string{"padding clause: a pad ending in CR is not combined with an input starting with LF (that forms a CRLF rather than prepending a blank line)", "final-newline clause compared in safe mode modulo line endings adjacent to tags outside <pre>"}, commonAssumptions...), QuickSec: 170, ThoroughSec: 1500,
+	c14 := &PropSpec{ID: "C14", Level: "model_checking", Assumptions: append([]string{"padding clause: a pad ending in CR is not combined with an input starting with LF (that forms a CRLF rather than prepending a blank line)", "final-newline clause compared in safe mode modulo line endings adjacent to tags outside <pre>"}, commonAssumptions...), QuickSec: 170, ThoroughSec: 1200,
 		Explanation: "bounded symbolic execution of Parse+Render on x and on crlf(x)/cr(x), pad.x, x.LF built in the harness; outputs compared (one solver query per comparison) after mapping copied line endings; offsets and lines shifted exactly"}
 	for n := int64(1); n <= 3; n++ {
 		cm(c14, "H_C14_eol", 0, n, fmt.Sprintf("line-ending clause, F(%d) without CR", n), "quick")
@@ -343,7 +343,7 @@ func propSpecs() map[string]*PropSpec {
 	add(c14)
 
 	// ---- C09
-	c09 := &PropSpec{ID: "C09", Level: "model_checking", Assumptions: append([]string{"quote clause uses the marker '> ' on every line (a bare '>' would consume one column of D's own indentation)", "list clause: a one-item list is tight, so <p> tags are removed from both sides before comparison; markers -, +, *, 1., 9), 12. and N in 1..4 are solver variables", "compared on the safe-mode rendering modulo line endings adjacent to tags outside <pre>"}, commonAssumptions...), QuickSec: 170, ThoroughSec: 1500,
+	c09 := &PropSpec{ID: "C09", Level: "model_checking", Assumptions: append([]string{"quote clause uses the marker '> ' on every line (a bare '>' would consume one column of D's own indentation)", "list clause: a one-item list is tight, so <p> tags are removed from both sides before comparison; markers -, +, *, 1., 9), 12. and N in 1..4 are solver variables", "compared on the safe-mode rendering modulo line endings adjacent to tags outside <pre>"}, commonAssumptions...), QuickSec: 170, ThoroughSec: 1200,
 		Explanation: "bounded symbolic execution of Parse+Render on D and on its quoted / list-indented form built in the harness; single-root and HTML-relation clauses asserted on symbolic outputs"}
 	for n := int64(1); n <= 3; n++ {
 		cm(c09, "H_C09_quote", 0, n, fmt.Sprintf("quote clause, tab-free F(%d)", n), "quick")
@@ -375,7 +375,7 @@ func propSpecs() map[string]*PropSpec {
 	add(c09)
 
 	// ---- C11
-	c11 := &PropSpec{ID: "C11", Level: "model_checking", Assumptions: append([]string{"inputs are single paragraphs built from units: '*', '_', an ASCII letter/digit (symbolic), space, an ASCII punctuation byte from #$%()+,-./:;=?@^{|}~ (symbolic), and (second bound) U+00A0, U+2014, U+00E9; unit sequences that Parse does not read as exactly one paragraph are excluded (assume)", "the reference is the spec's process-emphasis procedure without openers_bottom, validated during design on 108 of the spec's emphasis examples"}, commonAssumptions...), QuickSec: 170, ThoroughSec: 1500,
+	c11 := &PropSpec{ID: "C11", Level: "model_checking", Assumptions: append([]string{"inputs are single paragraphs built from units: '*', '_', an ASCII letter/digit (symbolic), space, an ASCII punctuation byte from #$%()+,-./:;=?@^{|}~ (symbolic), and (second bound) U+00A0, U+2014, U+00E9; unit sequences that Parse does not read as exactly one paragraph are excluded (assume)", "the reference is the spec's process-emphasis procedure without openers_bottom, validated during design on 108 of the spec's emphasis examples"}, commonAssumptions...), QuickSec: 170, ThoroughSec: 1200,
 		Explanation: "bounded symbolic execution of Parse+Render on every unit sequence up to the bound (unit classes are solver-enumerated, bytes within a class symbolic), compared byte for byte with the output of a transcription of the spec's delimiter-run algorithm"}
 	for n := int64(1); n <= 6; n++ {
 		cm(c11, "H_C11", n, 5, fmt.Sprintf("all sequences of %d units over the 5 ASCII classes", n), "quick")
@@ -395,7 +395,7 @@ func propSpecs() map[string]*PropSpec {
 	add(c11)
 
 	// ---- C12
-	c12 := &PropSpec{ID: "C12", Level: "model_checking", Assumptions: append([]string{"label alphabet {a, A, s, k, U+00DF, U+1E9E, U+212A, space, tab, LF, U+00A0, escaped ]} with case folding written out from CaseFolding.txt; case folding of other code points is trusted to golang.org/x/text", "at most one line ending per label (two could form a blank line)"}, commonAssumptions...), QuickSec: 170, ThoroughSec: 1500,
+	c12 := &PropSpec{ID: "C12", Level: "model_checking", Assumptions: append([]string{"label alphabet {a, A, s, k, U+00DF, U+1E9E, U+212A, space, tab, LF, U+00A0, escaped ]} with case folding written out from CaseFolding.txt; case folding of other code points is trusted to golang.org/x/text", "at most one line ending per label (two could form a blank line)"}, commonAssumptions...), QuickSec: 170, ThoroughSec: 1200,
 		Explanation: "bounded symbolic execution of Parse on use/definition documents whose labels are solver-chosen unit sequences; resolves <=> reference-normalised labels equal; first-definition-wins over all orders and container placements; closure clauses (link keys in map, keys normalised, map equals fresh Extract) on F(n) and link templates"}
 	for _, k := range [][2]int64{{1, 1}, {2, 1}, {1, 2}, {2, 2}} {
 		cm(c12, "H_C12_norm", k[0], k[1], fmt.Sprintf("labels of %d and %d units over a 12-member alphabet", k[0], k[1]), "quick")
@@ -407,6 +407,9 @@ func propSpecs() map[string]*PropSpec {
 	}
 	for c, nm := range []string{"nested block quotes", "nested list items", "list item inside a block quote"} {
 		cm(c12, "H_C12_nested", int64(c), 0, "two definitions inside one root container ("+nm+") at depths 1..2 x 4^3 label variants x use before/after", "quick")
+	}
+	for f, nm := range []string{"full reference", "image reference", "definition"} {
+		cm(c12, "H_C12_multiline", int64(f), 0, nm+" whose label continues on the next line inside a block quote / list item (4 container spellings, letters free)", "quick")
 	}
 	for n := int64(1); n <= 3; n++ {
 		cm(c12, "H_C12_closure", 0, n, fmt.Sprintf("closure clauses on F(%d)", n), "quick")
@@ -420,7 +423,7 @@ func propSpecs() map[string]*PropSpec {
 	add(c12)
 
 	// ---- C18
-	c18 := &PropSpec{ID: "C18", Level: "model_checking", Assumptions: append([]string{"trees: the first root block / all root blocks of six fixed documents, and fully virtual trees of depth <= 2 (<= 9 nodes) or depth 3 (<= 5 nodes) whose child counts are solver variables; every Pre/Post return value and the nil-ness of Pre and Post are solver variables"}, commonAssumptions...), QuickSec: 170, ThoroughSec: 1500,
+	c18 := &PropSpec{ID: "C18", Level: "model_checking", Assumptions: append([]string{"trees: the first root block / all root blocks of six fixed documents, and fully virtual trees of depth <= 2 (<= 9 nodes) or depth 3 (<= 5 nodes) whose child counts are solver variables; every Pre/Post return value and the nil-ness of Pre and Post are solver variables"}, commonAssumptions...), QuickSec: 170, ThoroughSec: 1200,
 		Explanation: "bounded symbolic execution of Walk with callbacks returning solver-chosen booleans; the recorded event trace (with cursor contents) is replayed against a recursive reference walker driven by the same decisions"}
 	for d := int64(0); d < 6; d++ {
 		cm(c18, "H_C18", 0, d, fmt.Sprintf("real tree of document %d, all callback policies", d), "quick")
@@ -442,7 +445,7 @@ func propSpecs() map[string]*PropSpec {
 	add(c18)
 
 	// ---- C06
-	c06 := &PropSpec{ID: "C06", Level: "model_checking", Assumptions: append([]string{"abstract documents are produced by the generator of harness/commonmark/gen.go (DESIGN.md Appendix D) under a node budget (blocks + inline atoms); every spelling choice of the serialiser is a solver variable; 'reduced menus' restrict some choice lists (documented in gen.go), 'full menus' use all of them", "expected HTML follows the CommonMark 0.30 mapping with this renderer's pinned conventions (character references verbatim, <br>, no closing slash), compared modulo line endings adjacent to tags outside <pre>", "constructs whose canonical spelling is ambiguous (lazy continuation, HTML block types 1-5/7, brackets in link text, adjacent same-type lists, ...) are not generated"}, commonAssumptions...), QuickSec: 200, ThoroughSec: 1700,
+	c06 := &PropSpec{ID: "C06", Level: "model_checking", Assumptions: append([]string{"abstract documents are produced by the generator of harness/commonmark/gen.go (DESIGN.md Appendix D) under a node budget (blocks + inline atoms); every spelling choice of the serialiser is a solver variable; 'reduced menus' restrict some choice lists (documented in gen.go), 'full menus' use all of them", "expected HTML follows the CommonMark 0.30 mapping with this renderer's pinned conventions (character references verbatim, <br>, no closing slash), compared modulo line endings adjacent to tags outside <pre>", "constructs whose canonical spelling is ambiguous (lazy continuation, HTML block types 1-5/7, brackets in link text, adjacent same-type lists, ...) are not generated"}, commonAssumptions...), QuickSec: 200, ThoroughSec: 1300,
 		Explanation: "bounded symbolic execution of Parse+Render on the canonical serialisation of every abstract document within the node budget, with symbolic letters/punctuation/code bytes; rendered HTML compared with the HTML computed from the abstract document"}
 	for k := int64(1); k <= 4; k++ {
 		cm(c06, "H_C06_esc", k, 0, fmt.Sprintf("%d arbitrary backslash-escaped ASCII punctuation bytes", k), "quick")
@@ -467,7 +470,7 @@ func propSpecs() map[string]*PropSpec {
 		p.Jobs = append(p.Jobs, JobSpec{Pkg: pkgFmt, Harness: h, Params: []int64{a, b}, Bound: bound, Tier: tier})
 	}
 	// ---- C19
-	c19 := &PropSpec{ID: "C19", Level: "other", Assumptions: append([]string{"interleavings are not explored: the schedule quantifier is discharged by non-interference - if no call writes to anything that exists before it starts (other than properly synchronised sync.Once initialisation), concurrent calls cannot race and equal the sequential result; the engine establishes that premise for every input in the bound by making every pre-existing object read-only (vfreeze) and reporting any store into one", "races inside the Go runtime, in caller-supplied writers or FilterTag functions are outside the claim", "a frozen-write violation has no native counterpart and is reported from the engine's observation"}, commonAssumptions...), QuickSec: 200, ThoroughSec: 1500,
+	c19 := &PropSpec{ID: "C19", Level: "other", Assumptions: append([]string{"interleavings are not explored: the schedule quantifier is discharged by non-interference - if no call writes to anything that exists before it starts (other than properly synchronised sync.Once initialisation), concurrent calls cannot race and equal the sequential result; the engine establishes that premise for every input in the bound by making every pre-existing object read-only (vfreeze) and reporting any store into one", "races inside the Go runtime, in caller-supplied writers or FilterTag functions are outside the claim", "a frozen-write violation has no native counterpart and is reported from the engine's observation"}, commonAssumptions...), QuickSec: 200, ThoroughSec: 1200,
 		Explanation: "write-confinement premise of a non-interference argument, established by bounded symbolic execution: Parse the input, freeze the whole heap (tree, Source, reference map, renderer values, package-level tables), then Render in 12 configurations twice, Walk, Format twice; two Parse calls with all pre-existing state frozen; every store into a frozen object on any feasible path is a violation; repeatability of results asserted"}
 	for n := int64(1); n <= 3; n++ {
 		cm(c19, "H_C19", 0, n, fmt.Sprintf("Render x12 x2 + Walk on frozen trees of F(%d)", n), "quick")
@@ -491,7 +494,7 @@ func propSpecs() map[string]*PropSpec {
 	add(c19)
 
 	// ---- C20
-	c20 := &PropSpec{ID: "C20", Level: "model_checking", Assumptions: append([]string{"canonical-style documents: the C06 generator restricted to the construct set fixed in DESIGN.md §C20 (no tabs/CRLF, '-' bullets, backtick fences, double-quoted titles, escaped punctuation from the formatter's escape set plus neutral punctuation)", "writer faults: the k-th Write/WriteString call fails, k a solver variable in 1..K; both io.Writer-only and io.StringWriter writers"}, commonAssumptions...), QuickSec: 200, ThoroughSec: 1700,
+	c20 := &PropSpec{ID: "C20", Level: "model_checking", Assumptions: append([]string{"canonical-style documents: the C06 generator restricted to the construct set fixed in DESIGN.md §C20 (no tabs/CRLF, '-' bullets, backtick fences, double-quoted titles, escaped punctuation from the formatter's escape set plus neutral punctuation)", "writer faults: the k-th Write/WriteString call fails, k a solver variable in 1..K; both io.Writer-only and io.StringWriter writers"}, commonAssumptions...), QuickSec: 200, ThoroughSec: 1300,
 		Explanation: "bounded symbolic execution of Parse+Format on F(n) with healthy and failing writers (error identity, no write after error, determinism, tree frozen), and of Format(Parse(d)) for every canonical document d within the node budget: rendered HTML preserved and a second Format reproduces the text byte for byte"}
 	for n := int64(1); n <= 3; n++ {
 		fm(c20, "H_C20_total", n, 6, fmt.Sprintf("F(%d), writer failing at call k in 1..6", n), "quick")
